@@ -316,20 +316,21 @@ def one_curve(rec, rng, cid, tsets, xproc):
             if idnt.fit_properties else "none"
         if not isnone:
             rec.event("cache decisions judged")
+            mem = ("mem-same", "mem-copy")
+            # in-memory training sets are equal by VALUE whether the same
+            # objects or equal copies are passed (same names -> same matrix)
+            same_ts = prev is not None and (
+                prev["ts"] == cfg["ts"] or
+                (prev["ts"] in mem and cfg["ts"] in mem))
             same_key = (cached_before is not None and prev is not None and
                         cached_before[0] == curhash and
-                        prev["regressor"] == cfg["regressor"] and
-                        prev["ts"] == cfg["ts"] and
-                        prev["ts"] != "mem-copy" and
+                        prev["regressor"] == cfg["regressor"] and same_ts and
                         prev["names"] == names and prev["lda"] == cfg["lda"])
             if same_key:
                 rec.event("repeated configuration")
                 rec.check(built == 0, "cache/rebuilt-although-unchanged",
                           "unchanged configuration built %d raters" % built,
                           case)
-            elif cfg["ts"] == "mem-copy" and prev is not None and \
-                    prev.get("ts") == "mem-copy":
-                pass     # equal copy: either decision returns the same value
             else:
                 rec.check(built == 1, "cache/stale-or-multiple",
                           "changed configuration (or first call) built %d "
